@@ -697,6 +697,8 @@ Pointset_Powerset<PSET>::topological_closure_assign() {
          s_end = x.sequence.end(); si != s_end; ++si) {
     si->pointset().topological_closure_assign();
   }
+  // Closing can make incomparable disjuncts comparable.
+  x.reduced = false;
   PPL_ASSERT_HEAVY(x.OK());
 }
 
